@@ -34,7 +34,9 @@ def run(tier='quick', seed=0):
     rng = random.Random(seed)
     NAT, INT, REAL = TConst('nat'), TConst('int'), TConst('real')
     TA = TVar('a')
-    base_types = [NAT, INT, REAL, BoolType, TConst('list', NAT), TConst('set', NAT), TA, TConst('list', TA)]
+    TB = TVar('b')
+    base_types = [NAT, INT, REAL, BoolType, TConst('list', NAT), TConst('set', NAT), TA, TConst('list', TA), TB,
+                  TConst('list', TB)]
     fun_types = [TFun(NAT, NAT), TFun(NAT, BoolType), TFun(REAL, REAL), TFun(TA, TA), TFun(NAT, NAT, NAT),
                  TFun(TFun(NAT, NAT), NAT)]
     pool = base_types + fun_types
@@ -52,7 +54,8 @@ def run(tier='quick', seed=0):
     declared = {'x': NAT, 'y': NAT, 'i': INT, 'r': REAL, 'p': BoolType, 'xs': TConst('list', NAT),
                 'S': TConst('set', NAT), 'a': TA, 'as': TConst('list', TA), 'f': TFun(NAT, NAT),
                 'P': TFun(NAT, BoolType), 'g': TFun(REAL, REAL), 'h': TFun(TA, TA), 'k': TFun(NAT, NAT, NAT),
-                'F': TFun(TFun(NAT, NAT), NAT), 'z': REAL, 'j': INT, 'q': BoolType}
+                'F': TFun(TFun(NAT, NAT), NAT), 'z': REAL, 'j': INT, 'q': BoolType,
+                'b2': TB, 'bs': TConst('list', TB), 'k2': TFun(TA, TB), 'c2': TB}
     by_type = {}
     for nm, T in declared.items():
         by_type.setdefault(T, []).append(nm)
@@ -69,7 +72,7 @@ def run(tier='quick', seed=0):
     def fill(T, tyinst):
         for v in T.get_stvars():
             if v.name not in tyinst:
-                tyinst[v.name] = rng.choice([NAT, INT, REAL, BoolType, TA, TConst('list', NAT)])
+                tyinst[v.name] = rng.choice([NAT, INT, REAL, BoolType, TA, TB, TConst('list', NAT)])
         return T.subst(tyinst)
 
     def gen(T, d, bd):
@@ -333,6 +336,17 @@ def run(tier='quick', seed=0):
             else:
                 s.arg = Var(rng.choice(list(declared)), None)
             one(sk, {} if rng.random() < 0.5 else ctx_vars, label='mutant')
+        # (f) a variable occurrence renamed to another DECLARED variable (both declared): the only clash may be
+        # between two rigid type variables, or between a type variable and a constant type
+        sk = erase(t, 0, 0, 0)
+        leaves = [s_ for p_, s_ in positions(sk) if s_.is_var()]
+        if leaves:
+            lf = rng.choice(leaves)
+            other = rng.choice([n_ for n_ in declared if n_ != lf.name])
+            lf.name = other
+            cv = dict(ctx_vars)
+            cv[other] = declared[other]
+            one(sk, cv, label='renamed-declared')
 
     # occurs-check chains v0 = [v1], v1 = [v2], ..., v_{m-1} = [v0] (and acyclic variants), every constraint order
     import itertools
